@@ -1,6 +1,7 @@
 """C13 - JSON Patch application follows RFC 6902 and is safe on arbitrary patch documents."""
 import os
 import vlib
+from checks import world
 
 FINISH = dict(level="model_checking",
               rule="TLC: (value level) RFC 6902 step over 5 documents x 1100 operations with laws (add-then-test, "
@@ -30,12 +31,18 @@ def run(ck):
     for m in ASF:
         ck.mc_must_fail("MCPatch", "C13_asfound_%s.cfg" % m, workers=4, timeout=600)
     ck.mc_must_fail("MCPatchAlias", "C13_asfound_share_value.cfg", workers=4, timeout=600)
+    # identity level, in the composed object model: what a patch adds / replaces / copies consists of fresh nodes, a replaced value
+    # is released, and from every such state leaf sets and releases stay local (values are independent of their source)
+    ck.mc("MCWorld", "W_mc_patch.cfg", workers=12, xmx="8g", timeout=1800)
+    ck.mc_must_fail("MCWorld", "W_asfound_patch_keeps_replaced.cfg", workers=4, timeout=600)
     exe = vlib.build("san", vlib.harness_sources(), "vh")
     n = 30000 if thorough else 1500
     tp = os.path.join(ck.dir, "v.ndjson")
     deaths = vlib.run_executions(exe, lambda st: ["c13", "drive", st, n], n, tp, timeout=1200)
     vlib.conformance(ck, "V:generated-and-malformed-patches", "TracePatch", "trace.cfg", tp, deaths, diag_of, min_events=n, timeout=1800,
                      split_every=200)
+    # world clients patch in place (add / replace / copy) trees they go on using: dumps with node identities after the calls
+    world.run_world(ck, exe, 2000 if thorough else 150, first_exec=300000, mc=False)
 
 
 def replay(path):
@@ -45,7 +52,7 @@ def replay(path):
     tp = path + ".ndjson"
     with open(tp, "w") as f:
         f.write("\n".join(x for x in d["trace"] if x.startswith("{")) + "\n")
-    r = vlib.validate_traces("TracePatch", "trace.cfg", [tp])[0]
+    r = vlib.validate_traces("TraceWorld" if d["diagnosis"].get("world") else "TracePatch", "trace.cfg", [tp])[0]
     os.unlink(tp)
     print("trace %s" % ("accepted" if r["accepted"] else "rejected at line(s) %s" % r["lines"]))
     return 0 if r["accepted"] else 1
